@@ -721,7 +721,7 @@ func TestVerif_C31(t *testing.T) {
 	// readBack feeds rendered text to `server --config`. Keys the reader rejects as invalid options
 	// are reported (one key per rejected name), removed, and the read is retried so that the rest
 	// of the document is still compared.
-	readBack := func(rendered, desc string) (map[string]string, bool) {
+	readBack := func(rendered, desc, classes string) (map[string]string, bool) {
 		text := rendered
 		for tries := 0; tries < 16; tries++ {
 			got, errs := e.server(text, nil, nil)
@@ -749,7 +749,7 @@ func TestVerif_C31(t *testing.T) {
 				text = strings.Join(keep, "\n")
 				continue
 			}
-			c.Violate("roundtrip read-error "+c31ErrClass(errs), desc, errs, "a rendered configuration is accepted by --config")
+			c.Violate(strings.TrimSpace("roundtrip read-error "+c31ErrClass(errs)+" "+classes), desc, errs, "a rendered configuration is accepted by --config")
 			return nil, false
 		}
 		return nil, false
@@ -762,7 +762,7 @@ func TestVerif_C31(t *testing.T) {
 		c.Distinct("R0")
 		if errs != "" {
 			c.Violate("roundtrip generate-config failed", "generate-config", errs, "rendered defaults")
-		} else if got, ok := readBack(out, "generate-config|server -c"); ok {
+		} else if got, ok := readBack(out, "generate-config|server -c", ""); ok {
 			c.Outcome("R0/" + c31FlatString(got))
 			if d := c31Diff(got, want0()); d != "" {
 				c.Violate("roundtrip generate-config mismatch", "generate-config | server --config", d, "server.NewConfig()")
@@ -791,7 +791,7 @@ func TestVerif_C31(t *testing.T) {
 			c.Violate("roundtrip render-error "+strings.Join(classes, "+"), desc, errs, "rendered configuration")
 			return
 		}
-		got, ok := readBack(out, desc)
+		got, ok := readBack(out, desc, strings.Join(classes, "+"))
 		if !ok {
 			return
 		}
@@ -886,6 +886,8 @@ func c31ErrClass(e string) string {
 	switch {
 	case strings.Contains(e, "error reading configuration file"):
 		return "toml-parse"
+	case strings.Contains(e, "parse error on line"):
+		return "csv-parse"
 	case strings.Contains(e, "invalid argument"), strings.Contains(e, "parsing"), strings.Contains(e, "invalid syntax"):
 		return "value-parse"
 	}
